@@ -87,9 +87,28 @@ def _undecided(dom, pred, why):
     if isinstance(dom, tuple):
         lo, hi = dom
         p0 = pred(lo)
-        for t in range(lo + 1, hi + 1):
-            if pred(t) != p0:
-                raise Split(t)
+        if hi - lo <= 4096:
+            for t in range(lo + 1, hi + 1):
+                if pred(t) != p0:
+                    raise Split(t)
+        else:
+            # predicates over one affine form flip at most twice (an equality is true at one point only): look for a flip by
+            # bisection on the monotone part, after probing a coarse grid for the isolated point of an equality
+            step = max(1, (hi - lo) // 4096)
+            prev = lo
+            t = lo + step
+            while prev < hi:
+                t = min(t, hi)
+                if pred(t) != p0:
+                    a, b = prev, t          # pred(a) == p0, pred(b) != p0
+                    while b - a > 1:
+                        mid = (a + b) // 2
+                        if pred(mid) != p0:
+                            b = mid
+                        else:
+                            a = mid
+                    raise Split(b)
+                prev, t = t, t + step
     raise NotConst(why)
 
 
@@ -275,11 +294,25 @@ class Folder:
         off, w = lay[path]
         tot, hit = 0, False
         for p2, v in rec.items():
-            if p2 in lay and p2 != path:
-                o2, w2 = lay[p2]
-                if off <= o2 and o2 + w2 <= off + w:
-                    hit = True
-                    tot = self.arith({}, "+", tot, self.arith({}, "*", v, 1 << (o2 - off)))
+            e = self._ext(lay, p2)
+            if e is None or p2 == path:
+                continue
+            o2, w2 = e
+            if o2 + w2 <= off or off + w <= o2:
+                continue
+            hit = True
+            if off <= o2 and o2 + w2 <= off + w:
+                part = v
+                if isinstance(v, int):
+                    part = v & ((1 << w2) - 1)
+                tot = self.arith({}, "+", tot, self.arith({}, "*", part, 1 << (o2 - off)))
+            elif isinstance(v, int):
+                # a stored member that sticks out of the one asked for: the bits they share
+                a, b = max(off, o2), min(off + w, o2 + w2)
+                bits = ((v & ((1 << w2) - 1)) >> (a - o2)) & ((1 << (b - a)) - 1)
+                tot = self.arith({}, "+", tot, bits << (a - off))
+            else:
+                raise NotConst("member %s overlaps a symbolic value stored through another view" % path)
         if not hit:
             return 0
         if isinstance(tot, int) and self._cur_sgn is not None and path in self._cur_sgn:
@@ -307,13 +340,9 @@ class Folder:
             raise NotConst("member of a value that is not a record")
         lay = self.layout(t)
         if lay is not None and path in lay:
-            # writing a member invalidates what overlaps it
+            # writing a member replaces the bits it covers, whatever view they were stored through
             off, w = lay[path]
-            for p2 in list(rec):
-                if p2 in lay and p2 != path:
-                    o2, w2 = lay[p2]
-                    if not (o2 + w2 <= off or off + w <= o2):
-                        del rec[p2]
+            self._carve(rec, lay, off, off + w, keep=path)
         if isinstance(v, dict):
             # a whole sub-record: its leaves; whatever overlaps the sub-record in another view of the union goes
             for k2 in [k3 for k3 in rec if k3.startswith(path + ".")]:
@@ -323,11 +352,7 @@ class Folder:
                 if span:
                     lo_ = min(o for o, w in span)
                     hi_ = max(o + w for o, w in span)
-                    for p2 in list(rec):
-                        if p2 in lay and not p2.startswith(path + "."):
-                            o2, w2 = lay[p2]
-                            if not (o2 + w2 <= lo_ or hi_ <= o2):
-                                del rec[p2]
+                    self._carve(rec, lay, lo_, hi_)
             for k2, v2 in v.items():
                 rec[path + "." + k2] = v2
             return
@@ -338,6 +363,37 @@ class Folder:
             if self._cur_sgn[path] and v >= 1 << (w - 1):
                 v -= 1 << w
         rec[path] = v
+
+    @staticmethod
+    def _ext(lay, key):
+        """bit extent (offset, width) of a stored key: a layout path, or an anonymous slice `#offset:width` left over from a
+        partially overwritten member"""
+        if key.startswith("#"):
+            o, w = key[1:].split(":")
+            return int(o), int(w)
+        return lay.get(key) if lay is not None else None
+
+    def _carve(self, rec, lay, lo, hi, keep=None):
+        """make room for a write of the bits [lo, hi): stored members inside go; members that stick out keep their other bits as
+        anonymous slices (a concrete value is split, a symbolic one is dropped)"""
+        for p2 in list(rec):
+            if p2 == keep:
+                continue
+            e = self._ext(lay, p2)
+            if e is None:
+                continue
+            o2, w2 = e
+            if o2 + w2 <= lo or hi <= o2:
+                continue
+            v2 = rec.pop(p2)
+            if lo <= o2 and o2 + w2 <= hi:
+                continue
+            if isinstance(v2, int):
+                u = v2 & ((1 << w2) - 1)
+                if o2 < lo:
+                    rec["#%d:%d" % (o2, lo - o2)] = u & ((1 << (lo - o2)) - 1)
+                if o2 + w2 > hi:
+                    rec["#%d:%d" % (hi, o2 + w2 - hi)] = u >> (hi - o2)
 
     def layout(self, t):
         if t is None:
@@ -541,9 +597,15 @@ class Folder:
                     return abs(v) // m * (1 if v >= 0 else -1)
                 lo_, hi_ = sg
                 q0 = tq(lo_)
-                for t in range(lo_ + 1, hi_ + 1):
-                    if tq(t) != q0:
-                        raise Split(t)
+                if tq(hi_) != q0:
+                    a_, b_ = lo_, hi_           # the truncating quotient is monotone in t: bisect for the first change
+                    while b_ - a_ > 1:
+                        mid = (a_ + b_) // 2
+                        if tq(mid) != q0:
+                            b_ = mid
+                        else:
+                            a_ = mid
+                    raise Split(b_)
                 return q0 if op == "/" else _norm(Aff(a.c - m * q0, a.k, sg))
             lo, hi = a.rng()
             if lo is not None and lo >= 0:
@@ -839,15 +901,10 @@ class Folder:
             raise NotConst("subscript of a computed array: %s" % expr_text_safe(b))
         if b.get("d") in self.env and isinstance(self.env[b["d"]], list):
             return self.env[b["d"]]
-        key = (self.fn.name, b.get("n"))
-        if key not in self._tabs:
-            from core import init_value
-            g = self.fn.tu.global_var(b.get("n"), func=self.fn.name) or self.fn.tu.global_var(b.get("n"))
-            vals = None
-            if g is not None:
-                vals = g.get("val") if "val" in g else init_value(g.get("init"))
-            self._tabs[key] = vals
-        vals = self._tabs[key]
+        if b.get("d") in self.env and isinstance(self.env[b["d"]], CPtr):
+            p_ = self.env[b["d"]]
+            return p_.buf[p_.off:] if p_.off else p_.buf
+        vals = self.global_table(b)
         if not isinstance(vals, list):
             raise NotConst("array %s has no constant initialiser" % b.get("n"))
         return vals
